@@ -4,6 +4,7 @@ import (
 	"io"
 
 	e "github.com/osteele/liquid/expressions"
+	"github.com/osteele/liquid/parser"
 	"github.com/osteele/liquid/render"
 	"github.com/osteele/liquid/values"
 )
@@ -50,7 +51,8 @@ func caseTagCompiler(node render.BlockNode) (func(io.Writer, render.Context) err
 		case "when":
 			stmt, err := e.ParseStatement(e.WhenStatementSelector, clause.Args)
 			if err != nil {
-				return nil, err
+				// locate the error at the clause, not at the enclosing case tag
+				return nil, parser.WrapError(err, clause)
 			}
 			cases = append(cases, exprCase{stmt.When, clause})
 		default: // should be a check for "else", but I like the metacircularity
@@ -99,7 +101,8 @@ func ifTagCompiler(polarity bool) func(render.BlockNode) (func(io.Writer, render
 			case "elsif":
 				t, err := e.Parse(c.Args)
 				if err != nil {
-					return nil, err
+					// locate the error at the clause, not at the enclosing if tag
+					return nil, parser.WrapError(err, c)
 				}
 				test = t
 			}
